@@ -89,10 +89,19 @@ impl PrettyPrint {
         let chars: Vec<char> = text.chars().collect();
         let first_non_ws = chars.iter().position(|c| !c.is_whitespace()).unwrap_or(0);
 
-        // HACK: Use the text line so we have the same tab spacing
+        // HACK: Use the text line so we have the same tab spacing. Other
+        // whitespace is kept as long as it does not move the cursor (the
+        // carriage return of a CR LF line end would put the arrows at the
+        // start of the row).
         let mut base: Vec<char> = chars[first_non_ws..]
             .iter()
-            .map(|c| if c.is_whitespace() { *c } else { ' ' })
+            .map(|c| {
+                if *c == '\t' || (c.is_whitespace() && !c.is_control()) {
+                    *c
+                } else {
+                    ' '
+                }
+            })
             .collect();
 
         // Arrows pointing the the relevant position
